@@ -23,7 +23,7 @@ THEOREMS = [
 ]
 RULE = ("seeded generator over classes {gaussian with |r| in [0,0.3), [0.3,0.75), [0.75,0.925), [0.925,1) of both "
         "signs incl. values within 1e-3..1e-6 of the thresholds, zero covariance, far tails (+-40 sigma), variances "
-        "1e-2..1e2, shifted means} each evaluated at the four corners of a random box in one vectorised call; "
+        "1e-2..1e2, tiny covariance matrices (variances 1e-12..1e-6 at correlations up to 0.9999), shifted means} each evaluated at the four corners of a random box in one vectorised call; "
         "{uniform kernel on a dyadic grid (exact) and on random doubles}; {norm_cdf}.  One corner per Gaussian case, "
         "every uniform / norm_cdf case is certified inside Coq against the model (1e-9 / exact / 1e-10); the first "
         "Gaussian case(s) of every class and every corpus witness are also certified inside Coq against Plackett's "
@@ -78,6 +78,10 @@ def _gauss_case(rng, cls, r=None, scale=None, tail=False):
     if scale == "unit":
         sxx = syy = 1.0
         mx = my = 0.0
+    elif scale == "tiny":                        # covariance entries far below any absolute "is zero" test
+        sxx = 10 ** rng.uniform(-12, -6)
+        syy = sxx * 10 ** rng.uniform(-1, 1)
+        mx, my = rng.choice([(0.0, 0.0), (rng.uniform(-1, 1), rng.uniform(0, 1))])
     else:
         sxx = 10 ** rng.uniform(-2, 2)
         syy = 10 ** rng.uniform(-2, 2)
@@ -95,7 +99,8 @@ def _gauss_case(rng, cls, r=None, scale=None, tail=False):
             zb = (za if r > 0 else -za) + rng.uniform(0.01, 0.2)
         z = [za, za + abs(rng.gauss(0, w)) + 0.01, zb, zb + abs(rng.gauss(0, w)) + 0.01]
     box = [mx + sx * z[0], mx + sx * z[1], my + sy * z[2], my + sy * z[3]]
-    return {"cls": cls if not tail else "g_tail", "kind": "gauss", "mu": [mx, my], "sigma": [sxx, sxy, syy], "box": box}
+    name = "g_tail" if tail else ("g_tiny" if scale == "tiny" else cls)
+    return {"cls": name, "kind": "gauss", "mu": [mx, my], "sigma": [sxx, sxy, syy], "box": box}
 
 
 def _zero_case(rng):
@@ -134,26 +139,30 @@ def _phi_case(rng):
 
 
 _TIER = {"tier": "quick"}
+# (quick, thorough) case counts per class; quick is sized for <= ~90 s wall on 16 cores
+COUNTS = {"g_high": (4, 100), "g_mid3": (3, 70), "g_mid6": (4, 90), "g_mid10": (4, 90), "g_zero": (3, 60),
+          "g_tail": (3, 60), "g_tiny": (3, 60), "u_exact": (8, 140), "u_tol": (4, 70), "normcdf": (4, 70)}
+MID = ["g_mid3", "g_mid6", "g_mid10"]
 
 
 def generate(rng, tier):
     _TIER["tier"] = tier
-    k = 1 if tier == "quick" else 12
+    n = {k: v[0 if tier == "quick" else 1] for k, v in COUNTS.items()}
     cases = []
-    for _ in range(9 * k):
-        cases.append(_gauss_case(rng, "g_high"))
-    for cls, n in (("g_mid3", 6), ("g_mid6", 8), ("g_mid10", 8)):
-        for _ in range(n * k):
+    for cls in ("g_high", "g_mid3", "g_mid6", "g_mid10"):
+        for _ in range(n[cls]):
             cases.append(_gauss_case(rng, cls))
-    for _ in range(5 * k):
+    for _ in range(n["g_zero"]):
         cases.append(_zero_case(rng))
-    for _ in range(5 * k):
-        cases.append(_gauss_case(rng, rng.choice(["g_mid3", "g_mid6", "g_mid10", "g_high"]), tail=True))
-    for _ in range(12 * k):
+    for i in range(n["g_tail"]):
+        cases.append(_gauss_case(rng, (MID + ["g_high"])[i % 4] if tier == "quick" else rng.choice(MID + ["g_high"]), tail=True))
+    for i in range(n["g_tiny"]):
+        cases.append(_gauss_case(rng, (MID + ["g_high"])[(i + 1) % 4] if tier == "quick" else rng.choice(MID + ["g_high"]), scale="tiny"))
+    for _ in range(n["u_exact"]):
         cases.append(_uniform_case(rng, True))
-    for _ in range(6 * k):
+    for _ in range(n["u_tol"]):
         cases.append(_uniform_case(rng, False))
-    for _ in range(6 * k):
+    for _ in range(n["normcdf"]):
         cases.append(_phi_case(rng))
     return cases
 
@@ -170,8 +179,10 @@ def search_generate(rng, n):
             out.append(_zero_case(rng))
         elif t == 8:
             out.append(_uniform_case(rng, rng.random() < 0.5))
-        else:
+        elif i % 20 == 9:
             out.append(_gauss_case(rng, rng.choice(["g_mid6", "g_high"]), tail=True))
+        else:
+            out.append(_gauss_case(rng, rng.choice(MID + ["g_high"]), scale="tiny"))
     return out
 
 
@@ -408,6 +419,36 @@ def coq_jobs(cases, outs):
     return []
 
 
+def _prove(lemmas, heavy, light_chunk=6):
+    """one kernel-checked lemma per entry; heavy ones get a file each (started first), light ones share a
+    file (saves the ~1.3 s library load); a failing shared file is re-run one lemma per file"""
+    from concurrent.futures import ThreadPoolExecutor
+
+    def render(idx):
+        return "\n".join([HEADER] + ["Lemma case_%d : %s.\nProof. %s Qed.\n" % (i, lemmas[i][0], lemmas[i][1]) for i in idx])
+    hv = [[i] for i in range(len(lemmas)) if heavy[i]]
+    lt = [i for i in range(len(lemmas)) if not heavy[i]]
+    chunks = hv + [lt[k:k + light_chunk] for k in range(0, len(lt), light_chunk)]
+    res = core.run_coq_jobs(PID, [("lem_%03d" % k, render(c)) for k, c in enumerate(chunks)], timeout=COQ_TIMEOUT)
+    ok = [False] * len(lemmas)
+    retry = []
+    for k, c in enumerate(chunks):
+        if res["lem_%03d" % k].ok:
+            for i in c:
+                ok[i] = True
+        elif len(c) > 1:
+            retry += c
+    if retry:
+        def one(i):
+            pth = core.WORK / PID / ("lem_one_%d.v" % i)
+            pth.write_text(render([i]))
+            return i, core.coqc(pth, COQ_TIMEOUT)
+        with ThreadPoolExecutor(max_workers=core.NPROC) as ex:
+            for i, r in ex.map(one, retry):
+                ok[i] = r.ok
+    return ok
+
+
 def coq_judge(cases, outs, results):
     verdicts = ["disagree:not-expressible (exception or non-finite value)"] * len(cases)
     todo = []
@@ -421,25 +462,35 @@ def coq_judge(cases, outs, results):
                 continue
         todo.append(i)
     todo.sort(key=lambda i: -_weight(cases[i]))
-    lemmas, owner = [], []
-    # accuracy certificates (impl vs Plackett's integral, 1e-7): the first case of every Gaussian class
-    seen_cls = set()
-    per_cls = 1 if _TIER["tier"] == "quick" else 4
+    lemmas, owner, heavy = [], [], []
+    # accuracy certificates (impl vs Plackett's integral, 1e-7) inside Coq: quick = the two refutation
+    # witnesses + the first g_high and g_mid10 case; thorough = every corpus case + 4 per class
+    quick = _TIER["tier"] == "quick"
+    seen_cls = {}
     for i in sorted(todo):
         c = cases[i]
-        if c["kind"] == "gauss" and c["sigma"][1] != 0.0 and c.get("cls") != "g_tail":
-            key = c.get("cls")
-            n = sum(1 for k in seen_cls if k[0] == key)
-            if key == "corpus" or n < per_cls:
-                seen_cls.add((key, i))
-                lemmas.append((_ref_stmt(c, outs[i]["vals"][CERT_CORNER]), "ref_case; enclose_rint; finish_value."))
-                owner.append(i)
+        if c["kind"] != "gauss" or c["sigma"][1] == 0.0 or c.get("cls") == "g_tail":
+            continue
+        key = c.get("cls")
+        r = abs(_std(c, 0.0, 0.0)[2])
+        if key == "corpus":
+            want = (not quick) or r >= 0.925
+        elif quick:
+            want = key in ("g_high", "g_mid10") and seen_cls.get(key, 0) < 1
+        else:
+            want = seen_cls.get(key, 0) < 4
+        if want:
+            seen_cls[key] = seen_cls.get(key, 0) + 1
+            lemmas.append((_ref_stmt(c, outs[i]["vals"][CERT_CORNER]), "ref_case; enclose_rint; finish_value."))
+            owner.append(i)
+            heavy.append(True)
     _state["ref_certs"] = len(lemmas)
     for i in todo:
         c, o = cases[i], outs[i]
         if c["kind"] == "gauss":
             lemmas.append((_gauss_stmt(c, o["vals"][CERT_CORNER]), _plan(c)))
             owner.append(i)
+            heavy.append(_weight(c) >= 2)
         elif c["kind"] == "uniform":
             xs, ys = _corners(c["box"])
             for k in ((0, 3) if _dyadic(c) else (3,)):
@@ -450,10 +501,12 @@ def coq_judge(cases, outs, results):
                 else:
                     lemmas.append(("Rabs (%s - %s) <= %s" % (call, R(o["vals"][k]), R(TOL_U)), "uniform_case."))
                 owner.append(i)
+                heavy.append(False)
         else:
             lemmas.append(("Rabs (Phi_int %s - %s) <= %s" % (R(c["x"]), R(o["vals"][0]), R(TOL_P)), "phi_case."))
             owner.append(i)
-    ok, _ = core.prove_lemmas(PID, HEADER, lemmas, chunk=1, timeout=COQ_TIMEOUT)
+            heavy.append(False)
+    ok = _prove(lemmas, heavy)
     good = {}
     for i, g in zip(owner, ok):
         good[i] = good.get(i, True) and g
@@ -463,7 +516,7 @@ def coq_judge(cases, outs, results):
             verdicts[i] = "agree"
         else:
             verdicts[i] = "disagree:certificate |model - impl| <= tol not provable (%s)" % cases[i]["kind"]
-            if cases[i]["kind"] == "gauss" and cases[i]["sigma"][1] != 0.0:
+            if cases[i]["kind"] == "gauss" and _weight(cases[i]) == 3:   # the variants differ only for |r| >= 0.925
                 bad_gauss.append(i)
     if bad_gauss:   # does the implementation behave like the refuted pinned variant?
         lem = [(_gauss_stmt(cases[i], outs[i]["vals"][CERT_CORNER], legacy=True), _plan(cases[i])) for i in bad_gauss]
